@@ -558,3 +558,26 @@ SPECS["C16"] = dict(
     level_text="bounded symbolic verification of operator and accessor algebra at shapes up to 4x3; the eigen-solver underneath is covered by C01/C04/C05/C07",
     level_note="compositional; exact arithmetic; full-rank assumption",
 )
+
+
+# ------------------------------------------------------------------------------------------------
+# C19: random generator (irsym)
+import c19 as _c19
+
+SPECS["C19"] = dict(
+    run=_c19.run, engine="irsym",
+    explanation=("The real next_long_rand, SimpleRandom constructor and RandomScalar<float|double|long double|complex<double>>::run are compiled to LLVM IR by clang -O1 on every run and translated to "
+                 "SMT by irsym: (1) for EVERY generator state s in [1, 2^31-2] the step returns 16807*s mod (2^31-1) and stays in [1, 2^31-2] (mathematical-integer encoding with explicit mod 2^64, "
+                 "decided by z3 5.1; the thorough tier also splits the range in 16 slices); (2) the constructor maps seed 0 and every seed 2i+123j (i < 2^20, j < 5) to a state in that range; (3) every "
+                 "draw lies in [-0.5, 0.5] for all 2^31-2 states, in SMT FloatingPoint for float (8,24), double (11,53) and x86 long double (15,64), both components of complex draws - the state fed to "
+                 "the int-to-float conversion is cut to a fresh variable constrained by (1) after checking that the stored state is syntactically next(loaded state); (4) purity: the IR of these functions "
+                 "contains no call, references no global and touches memory only through the state reference; (5) the four construction sites use seed 0 or seed + 123*iter. The translator is validated on "
+                 "every run by comparing its integer formulas with the natively compiled functions on random states."),
+    functions=["Spectra::next_long_rand", "Spectra::SimpleRandom<double>::SimpleRandom", "Spectra::RandomScalar<float|double|long double|std::complex<double>>::run"],
+    bounds={"states": "all 2^31-2", "seeds": "0 and 2i+123j, i<2^20, j<5", "data model": "LP64 (64-bit long)"},
+    outside=["data models other than LP64 (32-bit long)", "statistical quality of the sequence"],
+    assumptions=["clang -O1 IR is a faithful compilation of the source (nuw/nsw flags are used as facts)"],
+    technique="LLVM IR of the real functions translated to SMT (Int encoding for the modular step, FloatingPoint for the draws); z3 5.1 / z3 4.8 / cvc5 verdict over the full 31-bit state space",
+    level_text="complete over the whole state space (not bounded): the solver proves the step equals the Park-Miller recurrence for all 2^31-2 states and every draw is in range",
+    level_note="LP64 only; trusted: clang, z3, the irsym translator (differentially validated each run)",
+)
